@@ -677,6 +677,66 @@ Proof.
   rewrite H in Hs. inversion Hs; subst. apply Hh.
 Qed.
 
+(* C14 M1 for the map, both directions: within the bounds init / add report failure (NULL / -1)
+   exactly when the allocator refused a request *)
+Theorem spm_fail_iff ssz qsz msz op st o x st' o' ev :
+  mst_inv st -> spm_op_ok op -> (m_used st + 1) * 8 < W -> (m_next st < INT64_MAX)%Z ->
+  spm_step 2 4 2 ssz qsz msz 8 op st o = Ok (x, st', o', ev) ->
+  is_sdelete op = false ->
+  (refused ev = true <-> x = spm_err_out op).
+Proof.
+  intros Hi Hok HW HN H Hnd.
+  destruct (spm_step_ok ssz qsz msz op st o Hi Hok HW HN) as (x1 & st1 & o1 & ev1 & Hs & _ & Hspec & Hfail & _).
+  rewrite H in Hs. inversion Hs; subst. split.
+  - intros Hrf. destruct (Hfail Hrf Hnd). assumption.
+  - intros Hx. destruct (refused ev1); [reflexivity|]. exfalso.
+    rewrite Hx in Hspec.
+    destruct op, st as [m|]; cbn [mst_abs option_map spm_spec_step spm_err_out] in Hspec;
+      try discriminate.
+    (* add: the number issued is never -1 *)
+    destruct Hi as ((_ & _ & _ & Ho & _) & _). injection Hspec as Hz _.
+    unfold spm_abs in Hz. cbn [am_next] in Hz. lia.
+Qed.
+
+(* C14 M3 for whole map programs *)
+Definition mtr_final (st : option spmap) (tr : list (spm_out * option spmap * list aev)) : option spmap :=
+  last (map mtr_st tr) st.
+
+Theorem spm_run_no_leak ssz qsz msz ops : forall st o tr rest,
+  mst_inv st -> Forall spm_op_ok ops ->
+  m_used st + N.of_nat (length ops) < 2 ^ 60 ->
+  (m_next st + Z.of_nat (length ops) < 2 ^ 60)%Z ->
+  spm_run 2 4 2 ssz qsz msz 8 ops st o = Ok tr ->
+  exists h, heap_run (mst_owned ssz qsz msz st ++ rest) (concat (map mtr_ev tr)) = Some h /\
+            Permutation h (mst_owned ssz qsz msz (mtr_final st tr) ++ rest).
+Proof.
+  induction ops as [|op ops IH]; intros st o tr rest Hi Hok HU HN Hr.
+  - cbn in Hr. inversion Hr; subst. cbn. perm_refl.
+  - inversion Hok as [|? ? Hop Hops]; subst. cbn [length] in HU, HN.
+    change (2 ^ 60) with 1152921504606846976 in HU. change (2 ^ 60)%Z with 1152921504606846976%Z in HN.
+    assert (HW1 : (m_used st + 1) * 8 < W) by (rewrite W_val; lia).
+    assert (HN1 : (m_next st < INT64_MAX)%Z) by (rewrite INT64_MAX_val; lia).
+    destruct (spm_step_ok ssz qsz msz op st o Hi Hop HW1 HN1)
+      as (x & st1 & o1 & ev & Hs & Hi1 & _ & _ & Hu & Hn & Hh).
+    cbn [spm_run] in Hr. rewrite Hs in Hr. cbn [bind] in Hr.
+    destruct (spm_run 2 4 2 ssz qsz msz 8 ops st1 o1) as [tr1| | |] eqn:E; cbn [bind] in Hr; try discriminate.
+    inversion Hr; subst tr. clear Hr.
+    destruct (Hh rest) as (h1 & Hh1 & Hp1).
+    cbn [map concat mtr_ev snd]. rewrite heap_run_app, Hh1.
+    destruct (IH st1 o1 tr1 rest Hi1 Hops) as (h2 & Hh2 & Hp2).
+    { change (2 ^ 60) with 1152921504606846976. lia. }
+    { change (2 ^ 60)%Z with 1152921504606846976%Z. lia. }
+    { exact E. }
+    destruct (heap_run_perm _ _ _ _ (Permutation_sym Hp1) Hh2) as (h3 & Hh3 & Hp3).
+    exists h3. split; [exact Hh3|].
+    eapply Permutation_trans; [apply Permutation_sym; exact Hp3|].
+    eapply Permutation_trans; [exact Hp2|].
+    unfold mtr_final. cbn [map mtr_st fst snd].
+    replace (last (st1 :: map mtr_st tr1) st) with (last (map mtr_st tr1) st1).
+    2:{ symmetry. apply last_cons_cons. }
+    apply Permutation_refl.
+Qed.
+
 (* ------------------------------------------------------------------ *)
 (* examples *)
 
